@@ -106,8 +106,56 @@ var w5C06Shapes = []string{
 	"delete where key <= 'k05' & strlen(value) >= 0",
 }
 
+// c06BigShapes: statements of up to a few kilobytes built by REPETITION -- what must neither
+// panic (stack, index) nor take exponential time: alias chains in which every field mentions the
+// previous one twice, deep parentheses and call nesting, long AND/OR chains, long IN lists, many
+// fields, long literals; and ORDER BY over every kind of GROUP BY key
+func c06BigShapes() []string {
+	var out []string
+	for _, n := range []int{12, 24, 40, 60} {
+		fs := []string{"key as a0"}
+		for i := 1; i <= n; i++ {
+			fs = append(fs, fmt.Sprintf("a%d = a%d as a%d", i-1, i-1, i))
+		}
+		out = append(out, "select "+strings.Join(fs, ", ")+" where key ^= 'k'")
+		gs := []string{"value as b0"}
+		for i := 1; i <= n; i++ {
+			gs = append(gs, fmt.Sprintf("substr(b%d + b%d, 1, 3) as b%d", i-1, i-1, i)) // (no growth: b + b alone doubles the text)
+		}
+		out = append(out, "select "+strings.Join(gs, ", ")+" where key = 'k03' & strlen(b1) > 0")
+	}
+	for _, d := range []int{50, 300} {
+		out = append(out, "select key where "+strings.Repeat("(", d)+"key = 'k01'"+strings.Repeat(")", d))
+		out = append(out, "select "+strings.Repeat("upper(", d)+"value"+strings.Repeat(")", d)+" where key = 'k01'")
+		out = append(out, "select key where "+strings.Repeat("!", d)+"(key = 'k01')")
+		at := make([]string, d)
+		for i := range at {
+			at[i] = fmt.Sprintf("key != 'q%d'", i)
+		}
+		out = append(out, "select key where "+strings.Join(at, " & "))
+		out = append(out, "select key where "+strings.Join(at, " | ")+" limit 2")
+		in := make([]string, d)
+		for i := range in {
+			in[i] = fmt.Sprintf("'k%02d'", i)
+		}
+		out = append(out, "select key where key in ("+strings.Join(in, ", ")+") & value != ''")
+		out = append(out, "select key, value + '"+strings.Repeat("xy", d*4)+"' where key = 'k02'")
+		out = append(out, "select key where int(value) + "+strings.Repeat("1 + ", d)+"1 > 0")
+	}
+	// ORDER BY over every kind of GROUP BY key (the aggregate node renders its group keys)
+	for _, g := range []string{"is_int(value)", "key ^= 'k0'", "int(value)", "float(value)", "upper(value)", "strlen(value)", "split(value, ',')[0]", "value = '12'"} {
+		out = append(out, "select "+g+" as g, count(1) as c where key >= '' group by g order by g")
+		out = append(out, "select "+g+" as g, count(1) as c, min(key) as m where key >= '' group by g order by g desc, c, m")
+	}
+	return out
+}
+
 func w5C06Jobs(jobs []c06Job) []c06Job {
 	long := len(c06Stores) - 1
+	for _, q := range c06BigShapes() {
+		jobs = append(jobs, c06Job{ID: len(jobs), Query: q, Store: long, Batch: false, B: 1, Pad: 0})
+		jobs = append(jobs, c06Job{ID: len(jobs), Query: q, Store: long, Batch: true, B: 3, Pad: 7})
+	}
 	for _, q := range w5C06Shapes {
 		jobs = append(jobs, c06Job{ID: len(jobs), Query: q, Store: long, Batch: false, B: 1, Pad: 0})
 		for _, b := range []int{1, 3, 7, 32, 100} {
